@@ -134,8 +134,8 @@ func c09ReadRunner(m *c09Sim, done chan *httptest.ResponseRecorder) {
 }
 
 type c09CloseResult struct {
-	err                error
-	finishedBefore     int64 // updates that had returned when Close was called
+	err                 error
+	finishedBefore      int64 // updates that had returned when Close was called
 	startedBeforeReturn int64 // updates that had been called when Close returned
 }
 
@@ -428,7 +428,7 @@ func c09LastPoints(o *c09RespObs) (l []uint64) {
 
 const c09WaitAll = 60 * time.Second
 
-func c09ReadRaceTrial(t *testing.T, out *vfOut, r *vfRand, idx int, where string) {
+func c09ReadRaceTrial(t *testing.T, out *vfOut, r *vfRand, idx int, where string) (stall *c09Stall) {
 	id0 := uint32(r.Range(480000, 500000))
 	ms := vfPick(r, []int64{2, 3, 5, 24, 24, 48, 192, 200}) * c09MsHour
 	m := c09NewSim(t, t.TempDir(), id0, ms, true)
@@ -439,7 +439,7 @@ func c09ReadRaceTrial(t *testing.T, out *vfOut, r *vfRand, idx int, where string
 	}()
 	q := &c09Runner{m: m, ok: true}
 	if m.dead {
-		return
+		return nil
 	}
 	c09Base(r, q, id0)
 	reads := []any{}
@@ -493,10 +493,9 @@ func c09ReadRaceTrial(t *testing.T, out *vfOut, r *vfRand, idx int, where string
 		select {
 		case <-uDone:
 		case <-time.After(c09WaitAll):
-			q.fail("c09-read-stall", "updates started during GET /control/stats have not returned %v after the answer (%s)", c09WaitAll, c09Parked("c09StreamRunner"))
-			q.emit(out, id0, ms, fmt.Sprintf("concurrent read %d", idx), false, map[string]any{"where": where}, "concurrent-read")
+			// Judged by the caller: reported only if it happens again.
 			m.s = nil
-			return
+			return &c09Stall{idx, where, fmt.Sprintf("updates started during GET /control/stats have not returned %v after the answer (parked in %q)", c09WaitAll, c09Parked("c09StreamRunner"))}
 		}
 		m.hook = nil
 		for _, o := range stream {
@@ -546,6 +545,7 @@ func c09ReadRaceTrial(t *testing.T, out *vfOut, r *vfRand, idx int, where string
 	}
 	q.emit(out, id0, ms, fmt.Sprintf("concurrent read %d (%s)", idx, where), true, map[string]any{"reads": reads},
 		"concurrent-read", "concurrent-read-"+where)
+	return nil
 }
 
 // c09ReadVsFlushTrial: the hour turns while GET /control/stats is served.  The
@@ -553,13 +553,13 @@ func c09ReadRaceTrial(t *testing.T, out *vfOut, r *vfRand, idx int, where string
 // the hourly flush starts; the flush must not get into its body before the
 // handler has left its confMu section (it would take currMu and wait for the
 // transaction, the handler holds the transaction and waits for currMu).
-func c09ReadVsFlushTrial(t *testing.T, out *vfOut, r *vfRand, idx int) {
+func c09ReadVsFlushTrial(t *testing.T, out *vfOut, r *vfRand, idx int) (stall *c09Stall) {
 	id0 := uint32(r.Range(480000, 500000))
 	ms := vfPick(r, []int64{2, 3, 5, 24, 24, 48, 192}) * c09MsHour
 	m := c09NewSim(t, t.TempDir(), id0, ms, true)
 	q := &c09Runner{m: m, ok: true}
 	if m.dead {
-		return
+		return nil
 	}
 	defer func() {
 		if m.s != nil {
@@ -568,7 +568,7 @@ func c09ReadVsFlushTrial(t *testing.T, out *vfOut, r *vfRand, idx int) {
 	}()
 	c09Base(r, q, id0)
 	if m.dead {
-		return
+		return nil
 	}
 	q.run(c09Op{Kind: "flush", ID: m.unitHour})
 	prev := q.last
@@ -636,10 +636,11 @@ func c09ReadVsFlushTrial(t *testing.T, out *vfOut, r *vfRand, idx int) {
 		case overlap != "":
 			q.fail("c09-flush-overlaps-read", "hour %d -> %d: %s", old, id1, overlap)
 		default:
-			q.fail("c09-read-stall", "hour %d -> %d: %s have not returned after %v (%s)", old, id1, strings.Join(stuck, ", "), bound, parked)
+			// Judged by the caller: reported only if it happens again.
+			return &c09Stall{idx, "vs-flush", fmt.Sprintf("hour %d -> %d: %s have not returned after %v (%s)", old, id1, strings.Join(stuck, ", "), bound, parked)}
 		}
 		q.emit(out, id0, ms, name, false, desc, "read-vs-flush")
-		return
+		return nil
 	}
 	// The answer was taken before the roll-over.
 	if w.Code != http.StatusOK {
@@ -662,17 +663,40 @@ func c09ReadVsFlushTrial(t *testing.T, out *vfOut, r *vfRand, idx int) {
 		m.classes["read-vs-flush-flush-waits-for-reader"] = true
 	}
 	q.emit(out, id0, ms, name, true, desc, "read-vs-flush")
+	return nil
 }
 
 func c09ReadRaces(t *testing.T, out *vfOut, r *vfRand) {
 	n := out.Scale(40, 250)
 	kinds := []string{"callback", "loading-unit", "free", "callback", "vs-flush"}
-	for i := 0; i < n; i++ {
+	stalls := []*c09Stall{}
+	for i := 0; i < n && len(stalls) < 2; i++ {
+		var st *c09Stall
 		if k := kinds[i%len(kinds)]; k == "vs-flush" {
-			c09ReadVsFlushTrial(t, out, r.Fork(uint64(i)), i)
+			st = c09ReadVsFlushTrial(t, out, r.Fork(uint64(i)), i)
 		} else {
-			c09ReadRaceTrial(t, out, r.Fork(uint64(i)), i, k)
+			st = c09ReadRaceTrial(t, out, r.Fork(uint64(i)), i, k)
 		}
+		if st != nil {
+			stalls = append(stalls, st)
+		}
+	}
+	c09ReportStalls(out, "GET /control/stats concurrent with updates and the hourly flush", "c09-read-stall", stalls)
+}
+
+// c09ReportStalls: operations still blocked after the (generous) bound without
+// an overlap having been seen: a finding only if it happened twice.
+func c09ReportStalls(out *vfOut, what, key string, stalls []*c09Stall) {
+	switch {
+	case len(stalls) >= 2:
+		out.Emit(vfCase{Coq: "(CHist 490000 86400000 true (@nil (op * obs)))%Z", MonitorOK: false,
+			MonitorMsg: fmt.Sprintf("%s stalled in %d unforced trials: trial %d (%s): %s; trial %d (%s): %s", what,
+				len(stalls), stalls[0].idx, stalls[0].kind, stalls[0].what, stalls[1].idx, stalls[1].kind, stalls[1].what),
+			FindingKey: key, Desc: map[string]any{"name": what + ", stalls"}})
+	case len(stalls) == 1:
+		// Not reproduced: discarded, but visible in the evidence.
+		out.Class("schedule-stall-discarded")
+		out.Note("schedule_stall_discarded", stalls[0].what)
 	}
 }
 
@@ -703,18 +727,18 @@ func (c09BoltLogger) say(f string, v ...interface{}) {
 		(*h)(fmt.Sprintf(f, v...))
 	}
 }
-func (l c09BoltLogger) Debug(v ...interface{})              { l.say("%s", fmt.Sprint(v...)) }
-func (l c09BoltLogger) Debugf(f string, v ...interface{})   { l.say(f, v...) }
-func (c09BoltLogger) Error(v ...interface{})                {}
-func (c09BoltLogger) Errorf(f string, v ...interface{})     {}
-func (c09BoltLogger) Info(v ...interface{})                 {}
-func (c09BoltLogger) Infof(f string, v ...interface{})      {}
-func (c09BoltLogger) Warning(v ...interface{})              {}
-func (c09BoltLogger) Warningf(f string, v ...interface{})   {}
-func (c09BoltLogger) Fatal(v ...interface{})                { panic(fmt.Sprint(v...)) }
-func (c09BoltLogger) Fatalf(f string, v ...interface{})     { panic(fmt.Sprintf(f, v...)) }
-func (c09BoltLogger) Panic(v ...interface{})                { panic(fmt.Sprint(v...)) }
-func (c09BoltLogger) Panicf(f string, v ...interface{})     { panic(fmt.Sprintf(f, v...)) }
+func (l c09BoltLogger) Debug(v ...interface{})            { l.say("%s", fmt.Sprint(v...)) }
+func (l c09BoltLogger) Debugf(f string, v ...interface{}) { l.say(f, v...) }
+func (c09BoltLogger) Error(v ...interface{})              {}
+func (c09BoltLogger) Errorf(f string, v ...interface{})   {}
+func (c09BoltLogger) Info(v ...interface{})               {}
+func (c09BoltLogger) Infof(f string, v ...interface{})    {}
+func (c09BoltLogger) Warning(v ...interface{})            {}
+func (c09BoltLogger) Warningf(f string, v ...interface{}) {}
+func (c09BoltLogger) Fatal(v ...interface{})              { panic(fmt.Sprint(v...)) }
+func (c09BoltLogger) Fatalf(f string, v ...interface{})   { panic(fmt.Sprintf(f, v...)) }
+func (c09BoltLogger) Panic(v ...interface{})              { panic(fmt.Sprint(v...)) }
+func (c09BoltLogger) Panicf(f string, v ...interface{})   { panic(fmt.Sprintf(f, v...)) }
 
 const (
 	c09TxStart   = "Starting a new transaction [writable: true]"
@@ -758,6 +782,9 @@ type c09Stall struct {
 func c09ShutdownTrial(t *testing.T, out *vfOut, r *vfRand, idx int, kind string) (stall *c09Stall) {
 	id0 := uint32(r.Range(480000, 500000))
 	ms := vfPick(r, []int64{3, 5, 24, 24, 48, 200}) * c09MsHour
+	if idx%15 == 0 {
+		ms = 3 * c09MsHour
+	}
 	m := c09NewSim(t, t.TempDir(), id0, ms, true)
 	q := &c09Runner{m: m, ok: true, x: true}
 	if m.dead {
@@ -778,6 +805,11 @@ func c09ShutdownTrial(t *testing.T, out *vfOut, r *vfRand, idx int, kind string)
 	// flusher and the shutdown start, requests are still in flight.
 	old := m.unitHour
 	id1 := old + uint32(vfPick(r, []int{1, 1, 1, 1, 2, 3, 0}))
+	if idx%15 == 0 {
+		// The clock jumps by exactly the limit: the flush stores the hour and
+		// deletes it in the same transaction.
+		id1 = old + m.limH
+	}
 	n := r.Intn(6)
 	stream, es := c09GenStream(r, n, false)
 	s := m.s
@@ -929,23 +961,37 @@ func c09ShutdownTrial(t *testing.T, out *vfOut, r *vfRand, idx int, kind string)
 		m.fail(c09ErrDB, "reading the file after Close: %v", err)
 	}
 	flushFirst := curID != old
-	j, i := int64(buckets[old])-int64(n0), int64(0)
+	var j, i int64
+	bOld, hasOld := buckets[old]
 	if flushFirst {
+		// The unit swapped in by the flush holds what came after it: the
+		// updates before the flush are the rest of the stream.  The flush
+		// stored hour `old` and deleted bucket id1-limit, which is `old` itself
+		// when the clock jumped by exactly the limit.
+		j = int64(n) - int64(curN)
 		i = int64(buckets[id1])
-		if _, ok := buckets[id1]; !ok {
-			q.fail("c09-shutdown-not-sequential", "the flush swapped the unit to hour %d before Close, but the file has no bucket %d: %v", id1, id1, buckets)
-		}
-		if curID != id1 {
+		switch _, ok := buckets[id1]; {
+		case curID != id1:
 			q.fail("c09-shutdown-not-sequential", "current unit of the closed context is %d, neither %d nor %d", curID, old, id1)
+		case !ok:
+			q.fail("c09-shutdown-not-sequential", "the flush swapped the unit to hour %d before Close, but the file has no bucket %d: %v", id1, id1, buckets)
+		case hasOld && int64(bOld) != int64(n0)+j:
+			q.fail("c09-shutdown-not-sequential", "hour %d had %d queries and %d of the %d concurrent updates before the flush, its bucket holds %d: %v", old, n0, j, n, bOld, buckets)
+		case !hasOld && id1-m.limH != old:
+			q.fail("c09-shutdown-lost", "the flush to hour %d did not leave a bucket for hour %d (limit %d h): %v", id1, old, m.limH, buckets)
+		}
+	} else {
+		j = int64(bOld) - int64(n0)
+		if !hasOld {
+			q.fail("c09-shutdown-lost", "Close did not write the bucket of the current hour %d: %v", old, buckets)
+			j = 0
 		}
 	}
 	k := j + i
 	switch {
 	case j < 0 || i < 0 || k > int64(n):
-		q.fail("c09-shutdown-not-sequential", "hour %d had %d queries, %d concurrent updates; file after Close: %v (flush first: %v)", old, n0, n, buckets, flushFirst)
+		q.fail("c09-shutdown-not-sequential", "hour %d had %d queries, %d concurrent updates; unit %d of the closed context has %d; file after Close: %v (flush first: %v)", old, n0, n, curID, curN, buckets, flushFirst)
 		j, i, k = 0, 0, 0
-	case flushFirst && curN != uint64(int64(n)-j):
-		q.fail("c09-shutdown-not-sequential", "unit %d of the closed context has %d queries; %d of the %d concurrent updates were counted in hour %d", curID, curN, j, n, old)
 	case !flushFirst && curN != n0+uint64(n):
 		q.fail("c09-shutdown-not-sequential", "unit %d of the closed context has %d queries, expected %d + %d", curID, curN, n0, n)
 	case k < cres.finishedBefore:
@@ -1000,6 +1046,9 @@ func c09ShutdownTrial(t *testing.T, out *vfOut, r *vfRand, idx int, kind string)
 	if k < int64(n) {
 		m.classes["close-vs-flush-updates-after-close"] = true
 	}
+	if flushFirst && !hasOld {
+		m.classes["close-vs-flush-gap-of-limit"] = true
+	}
 	desc["flush_first"], desc["before_flush"], desc["before_close"] = flushFirst, j, k
 
 	// New on the same file, in the same or a later hour, and a read: totals
@@ -1037,15 +1086,5 @@ func c09Shutdowns(t *testing.T, out *vfOut, r *vfRand) {
 			}
 		}
 	}
-	switch {
-	case len(stalls) >= 2:
-		out.Emit(vfCase{Coq: "(CHist 490000 86400000 true (@nil (op * obs)))%Z", MonitorOK: false,
-			MonitorMsg: fmt.Sprintf("clean shutdown concurrent with the hourly flush stalled in %d unforced trials: trial %d (%s): %s; trial %d (%s): %s",
-				len(stalls), stalls[0].idx, stalls[0].kind, stalls[0].what, stalls[1].idx, stalls[1].kind, stalls[1].what),
-			FindingKey: "c09-shutdown-stall", Desc: map[string]any{"name": "close vs flush, stalls"}})
-	case len(stalls) == 1:
-		// Not reproduced: discarded, but visible in the evidence.
-		out.Class("close-vs-flush-stall-discarded")
-		out.Note("close_vs_flush_stall_discarded", stalls[0].what)
-	}
+	c09ReportStalls(out, "clean shutdown concurrent with the hourly flush", "c09-shutdown-stall", stalls)
 }
